@@ -12,7 +12,9 @@ def replay_csv(rows, cols, enc, blocked):
         row = {}
         for c in cols:
             v = r.get(c, '')
-            if isinstance(v, dict) and v.get('date'):
+            if isinstance(v, dict) and isinstance(v.get('date'), list):
+                v = datetime.datetime(*v['date']).strftime('%Y-%m-%d %H:%M:%S')
+            elif isinstance(v, dict) and v.get('date'):
                 v = d.strftime('%Y-%m-%d %H:%M:%S')
             row[c] = v
         table.append(row)
@@ -68,6 +70,43 @@ def replay_cli(in_enc, out_enc, ipm_enc, noblock):
             return True, 'output CSV cannot be read in the requested encoding %s: %s' % (out_enc, type(e).__name__), 'C20/cli-encoding'
         if len(got) != 1 or any(got[0].get(c) != v for c, v in row.items()):
             return True, 'row came back as %r' % ({c: got[0].get(c) for c in row} if got else None,), 'C20/cli-encoding'
+        return False, 'ok', None
+    finally:
+        shutil.rmtree(d, ignore_errors=True)
+
+
+def replay_cli_rows(ipm_enc, noblock, cols, rows):
+    """the command entry points on real files with the given rows"""
+    import contextlib
+    import csv
+    import os
+    import shutil
+    import tempfile
+    from cardutil.cli import mci_csv_to_ipm, mci_ipm_to_csv
+    d = tempfile.mkdtemp(prefix='verif.c20.', dir='/dev/shm')
+    try:
+        with open(os.path.join(d, 'in.csv'), 'w', newline='') as f:
+            w = csv.DictWriter(f, fieldnames=list(cols))
+            w.writeheader()
+            w.writerows(rows)
+        try:
+            with contextlib.redirect_stdout(io.StringIO()):
+                mci_csv_to_ipm.cli_run(in_filename=os.path.join(d, 'in.csv'), out_filename=os.path.join(d, 'out.ipm'), in_encoding=None,
+                                       out_encoding=ipm_enc, no1014blocking=noblock, config_file=None, debug=False)
+                rc = mci_ipm_to_csv.cli_run(in_filename=os.path.join(d, 'out.ipm'), out_filename=os.path.join(d, 'back.csv'), in_encoding=ipm_enc,
+                                            out_encoding=None, no1014blocking=noblock, config_file=None, debug=False)
+        except Exception as e:
+            return True, 'raised %s: %s' % (type(e).__name__, e), 'C20/cli-exception'
+        if rc is not None:
+            return True, 'extraction of the file just written reported an error', 'C20/cli'
+        with open(os.path.join(d, 'back.csv'), 'r', newline='') as f:
+            got = list(csv.DictReader(f))
+        if len(got) != len(rows):
+            return True, 'extracted %d rows from %d' % (len(got), len(rows)), 'C20/cli'
+        for i, (g, r) in enumerate(zip(got, rows)):
+            for c, v in r.items():
+                if g.get(c) != v:
+                    return True, 'row %d column %s changed' % (i + 1, c), 'C20/cli'
         return False, 'ok', None
     finally:
         shutil.rmtree(d, ignore_errors=True)
